@@ -960,6 +960,165 @@ def leaves_obj(v, prefix=()):
             yield from leaves_obj(v.f[k], prefix + (k,))
 
 
+# ---------------------------------------------------------------------------------------------------------------
+# L05w (C02): TRIMA and HMA are the documented compositions of components L05 decides
+# ---------------------------------------------------------------------------------------------------------------
+class _CompRun(wlin.Run):
+    """inner methods are opaque: Method::new(len, seed) builds an object that remembers its type, length and seed; next(inner, x) records
+    what it is fed and returns a fresh atom `out<i>`"""
+
+    def __init__(self, facts, script):
+        super().__init__(facts, script)
+        self.inner_new = []       # (type, length Aff, seed Aff)
+        self.fed = []             # (inner index, fed Aff)
+        self.top_level = True
+
+    def call(self, c, args, depth):
+        d = wlin.callee_def(c) or ''
+        name = c.get('name') or d.rsplit('::', 1)[-1]
+        tr = c.get('trait') or ''
+        a = [x.get() if isinstance(x, Ref) else x for x in args]
+        if tr.endswith('::Method') and name == 'new' and len(a) == 2:
+            idx = len(self.inner_new)
+            self.inner_new.append((d, a[0], a[1]))
+            return Obj('std::result::Result', {'0': Obj('inner', {'idx': K(idx, True), 'ty': d})}, 'Ok')
+        if tr.endswith('::Method') and name == 'next' and len(a) == 2 and isinstance(a[0], Obj) and a[0].kind == 'inner':
+            idx = int(a[0].f['idx'].c.const_value())
+            self.fed.append((idx, a[1]))
+            return Aff(True, ONE, ZERO, False, {'out%d' % idx: ONE})
+        return super().call(c, args, depth)
+
+
+# kind -> list of (component type suffix, length as a function of (n RF, runner), what it is fed as {atom: coefficient}), output form
+def _len_half(n, run):
+    return run.floordiv(n, RF.const(2))
+
+
+def _len_isqrt(n, run):
+    return RF.sym(next(iter(wlin.p_syms(wlin.fresh('trunc', (wlin.fresh('sqrt', (n,), False),), True).n))))
+
+
+COMPOSITIONS = {
+    'TRIMA': ([('sma::SMA', lambda n, run: n, {'input': 1}), ('sma::SMA', lambda n, run: n, {'out0': 1})], {'out1': 1}),
+    'HMA': ([('wma::WMA', _len_half, {'input': 1}), ('wma::WMA', lambda n, run: n, {'input': 1}), ('wma::WMA', _len_isqrt, {'out0': 2, 'out1': -1})], {'out2': 1}),
+}
+
+
+def rule_L05w_compositions(ctx):
+    m = Model(ctx.facts())
+    f = m.f
+    res = RuleResult('L05w', 'TRIMA = SMA(n) of SMA(n) and HMA = WMA(floor sqrt n) of 2*WMA(n/2) - WMA(n): components of the documented kinds and lengths, all seeded with the first value, '
+                             'fed and combined as documented (the components themselves are decided by L05)')
+    done = 0
+    for impl in m.method_impls:
+        adt = m.adt_path_of_impl(impl)
+        short = adt.rsplit('::', 1)[-1] if adt else None
+        if short not in COMPOSITIONS:
+            continue
+        comps, out_form = COMPOSITIONS[short]
+        nb = m.body(m.impl_fn_path(impl, 'new'))
+        xb = m.body(m.impl_fn_path(impl, 'next'))
+        pmax = {'u8': 255, 'u16': 65535}.get(nb.local_ty(1), 65535)
+        ok = True
+        for r in range(MOD):
+            wlin.PARAM_RANGE['kmin'] = 0 if r else 1
+            wlin.PARAM_RANGE['kmax'] = (pmax - r) // MOD
+            n_rf = RF.const(MOD) * RF.sym('k') + RF.const(r)
+            try:
+                pending = [[]]
+                while pending:
+                    script = pending.pop()
+                    run = _CompRun(f, script)
+                    box = {'v': Aff(True, ONE, ZERO, False, {'first value': ONE})}
+                    try:
+                        cres = run.call_fn(nb, [_param_value(None, r), Ref(box, 'v')])
+                    except wlin.PathDead:
+                        cres = None
+                    for i in range(len(script), len(run.script)):
+                        for alt in range(1, run.branching[i]):
+                            pending.append(run.script[:i] + [alt])
+                    if not (isinstance(cres, Obj) and cres.variant == 'Ok' and isinstance(cres.f.get('0'), Obj)):
+                        continue
+                    sub, infeasible = _apply_assumptions(run.assume)
+                    if infeasible is True:
+                        continue
+                    key0 = '%s|n=%dk+%d' % (short, MOD, r)
+                    res.inst(key0 + '|new')
+                    if len(run.inner_new) != len(comps):
+                        res.violate('%s|components' % short, '%s::new builds %d inner methods, the documented composition has %d' % (short, len(run.inner_new), len(comps)), nb.file, nb.line)
+                        ok = False
+                        continue
+                    for i, ((ty, ln, seed), (want_ty, want_len, _)) in enumerate(zip(run.inner_new, comps)):
+                        if want_ty not in ty:
+                            res.violate('%s|component%d|type' % (short, i), '%s::new builds component %d as %s, documented: %s' % (short, i, ty, want_ty), nb.file, nb.line)
+                            ok = False
+                        wl = want_len(n_rf, run)
+                        if not (isinstance(ln, Aff) and not ln.lin):
+                            raise Abstain('length of component %d not tracked' % i)
+                        same = _sub(ln.c, sub).eq(_sub(wl, sub)) or _compare_over_range(_sub(ln.c, sub), _sub(wl, sub), ZERO, ZERO, sub, run.assume)
+                        if same is None:
+                            raise Abstain('length of component %d not decided' % i)
+                        if not same:
+                            res.violate('%s|component%d|length' % (short, i), '%s::new gives component %d the length %s, documented: %s' % (short, i, ln.c, wl), nb.file, nb.line)
+                            ok = False
+                        if not (isinstance(seed, Aff) and seed.co is not None and set(k_ for k_, v in seed.co.items() if not v.is_zero()) == {'first value'}
+                                and seed.co['first value'].eq(ONE) and seed.c.is_zero()):
+                            res.violate('%s|component%d|seed' % (short, i), '%s::new seeds component %d with %r, not with the first value' % (short, i, seed), nb.file, nb.line)
+                            ok = False
+                    # the step
+                    s0 = cres.f['0']
+                    pend2 = [[]]
+                    while pend2:
+                        sc2 = pend2.pop()
+                        run2 = _CompRun(f, sc2)
+                        box2 = {'s': copy.deepcopy(s0), 'x': Aff(True, ONE, ZERO, False, {'input': ONE})}
+                        try:
+                            out = run2.call_fn(xb, [Ref(box2, 's'), Ref(box2, 'x')])
+                        except wlin.PathDead:
+                            out = None
+                        for i in range(len(sc2), len(run2.script)):
+                            for alt in range(1, run2.branching[i]):
+                                pend2.append(run2.script[:i] + [alt])
+                        if out is None:
+                            continue
+                        res.inst(key0 + '|next')
+                        if run2.data_dependent:
+                            res.violate('%s|next|branch' % short, '%s::next takes a stream-dependent decision; the documented composition steps every component on every input' % short, xb.file, xb.line)
+                            ok = False
+                            continue
+                        fed = {}
+                        for idx, v in run2.fed:
+                            fed.setdefault(idx, []).append(v)
+                        for i, (_, _, want_fed) in enumerate(comps):
+                            vs = fed.get(i, [])
+                            if len(vs) != 1:
+                                res.violate('%s|component%d|steps' % (short, i), '%s::next steps component %d %d times per input' % (short, i, len(vs)), xb.file, xb.line)
+                                ok = False
+                                continue
+                            v = vs[0]
+                            if not (isinstance(v, Aff) and v.co is not None):
+                                raise Abstain('value fed to component %d not tracked' % i)
+                            got = {k_: c_ for k_, c_ in v.co.items() if not c_.is_zero()}
+                            if set(got) != set(want_fed) or any(not got[k_].eq(RF.const(want_fed[k_])) for k_ in got) or not v.c.is_zero():
+                                res.violate('%s|component%d|fed' % (short, i), '%s::next feeds component %d the value %s, documented: %s' % (
+                                    short, i, {k_: str(c_) for k_, c_ in got.items()}, want_fed), xb.file, xb.line)
+                                ok = False
+                        if not (isinstance(out, Aff) and out.co is not None):
+                            raise Abstain('output not tracked')
+                        got = {k_: c_ for k_, c_ in out.co.items() if not c_.is_zero()}
+                        if set(got) != set(out_form) or any(not got[k_].eq(RF.const(out_form[k_])) for k_ in got) or not out.c.is_zero():
+                            res.violate('%s|output' % short, '%s::next returns %s, documented: %s' % (short, {k_: str(c_) for k_, c_ in got.items()}, out_form), xb.file, xb.line)
+                            ok = False
+            except Abstain as ex:
+                res.undecided.append('%s: %s' % (short, ex))
+                ok = False
+        if ok:
+            done += 1
+            res.sample({'kind': short, 'verdict': 'documented composition of components decided by L05'})
+    res.floor('compositions decided', 1, done + len({v.key.split('|')[0] for v in res.violations}))
+    return res
+
+
 def rule_L03_dimensions(ctx):
     """C15 (affine equivariance): dimensional analysis of every moving average. The stream carries the unit `price`; configuration
     quantities and literals are pure numbers. next() may compare two quantities only when they have the same dimension and the same
